@@ -269,3 +269,89 @@ def flatten(lines, fvec, frc, warnings, subname):
             warnings.append("%s: unresolved jump at %d" % (subname, k))
             i[1] = len(ins)
     return ins, {"vec": sorted(vec_locals), "rc": sorted(rc_locals)}, sorted(flags)
+
+
+# ---- per-type storage routines (specs/TypeRoutines.tla) ---------------------------------------
+
+def _path(expr):
+    """'y%inner%v(10)' -> ['y', 'inner', 'v'] (array extents / indices dropped)."""
+    return [re.sub(r"\(.*$", "", c).strip() for c in expr.strip().split("%")]
+
+
+def type_routine(text, name):
+    """Instruction list of the emitted subroutine `name` (dagrt_alloc_check_T / dagrt_deinit_T) over pointer paths:
+      ["br", target, [kind, path, polarity]]  kind = "assoc" (associated(path)) | "rc1" (refcount == 1)
+      ["jmp", target] ["allocate", path] ["deallocate", path] ["nullify", path]
+      ["allocrc"] ["deallocrc"] ["setrc"] ["decrc"]
+    Allocation-failure handling (if (dagrt_ierr.ne.0) ... stop) is skipped.  Returns (instructions, warnings)."""
+    lines = join_lines(text)
+    body, on = [], False
+    for ln in lines:
+        s = ln.strip()
+        if re.match(r"subroutine %s\b" % re.escape(name), s):
+            on = True
+            continue
+        if on and s.startswith("end subroutine"):
+            break
+        if on:
+            body.append(s)
+    ins, warnings, stack = [], [], []
+    skip = 0
+    for s in body:
+        if skip:
+            if re.match(r"if\b.*then$", s):
+                skip += 1
+            elif s in ("end if", "endif"):
+                skip -= 1
+            continue
+        if s.startswith(("implicit none", "integer", "type(", "real", "use ")) or not s:
+            continue
+        if re.match(r"if \(dagrt_ierr\.ne\.0\) then$", s):
+            skip = 1
+            continue
+        m = re.match(r"if \((\.not\.)?\s*associated\((.*)\)\) then$", s)
+        if m:
+            ins.append(["br", None, ["assoc", _path(m.group(2)), not m.group(1)]])
+            stack.append([len(ins) - 1, []])
+            continue
+        m = re.match(r"if \(refcount\.(eq|ne)\.1\) then$", s)
+        if m:
+            ins.append(["br", None, ["rc1", [], m.group(1) == "eq"]])
+            stack.append([len(ins) - 1, []])
+            continue
+        if s == "else":
+            top = stack[-1]
+            ins.append(["jmp", None])
+            top[1].append(len(ins) - 1)
+            ins[top[0]][1] = len(ins) + 1
+            top[0] = None
+            continue
+        if s in ("end if", "endif"):
+            top = stack.pop()
+            if top[0] is not None:
+                ins[top[0]][1] = len(ins) + 1
+            for j in top[1]:
+                ins[j][1] = len(ins) + 1
+            continue
+        m = re.match(r"allocate\((.*?)(, stat=\w+)?\)$", s)
+        if m:
+            ins.append(["allocrc"] if m.group(1).strip() == "refcount" else ["allocate", _path(m.group(1))])
+            continue
+        m = re.match(r"deallocate\((.*)\)$", s)
+        if m:
+            ins.append(["deallocrc"] if m.group(1).strip() == "refcount" else ["deallocate", _path(m.group(1))])
+            continue
+        m = re.match(r"nullify\((.*)\)$", s)
+        if m:
+            ins.append(["nullify", _path(m.group(1))])
+            continue
+        if s == "refcount = 1":
+            ins.append(["setrc"])
+            continue
+        if s == "refcount = refcount - 1":
+            ins.append(["decrc"])
+            continue
+        warnings.append("%s: %s" % (name, s))
+    if stack:
+        warnings.append("%s: unbalanced if" % name)
+    return ins, warnings
